@@ -159,6 +159,8 @@ def check(model: Model, run: Run) -> None:
                         if x.kind == "prim":
                             run.ob("V3-explicit-default-has-real-reader", True)
     run.floor("tag-dispatch points", n_seq, 9)
+    # ---- no decoder rejects an element because of the FORM of its header ---------------------------------------------------
+    header_form_rejections(model, run)
     # DEFAULT FALSE fields (writer omits when falsy) must be read with read_boolean into the same field
     for c, w in ex.wgram.items():
         res = ex.rres.get(c) if not short(c).endswith("Control") else ex.ctl_generic
@@ -239,3 +241,61 @@ def enclosing(func: ast.AST, target: ast.AST):
         return False
     visit(func, [])
     return out
+
+
+V8_FIXTURE = """
+def unpack(reader):
+    h = reader.peek_header()
+    if h != EXPECTED:
+        raise ValueError("x")
+    if h.tag_length > 2:
+        raise ValueError("y")
+    return reader.read_boolean(header=h)
+"""
+
+
+def _form_dependent(lit: str, header_names) -> bool:
+    e = ast.parse(lit, mode="eval").body
+    for x in ast.walk(e):
+        if isinstance(x, ast.Attribute) and x.attr == "tag_length":
+            return True
+        if isinstance(x, ast.Compare):
+            for side in [x.left] + list(x.comparators):
+                if isinstance(side, ast.Name) and side.id in header_names:
+                    other = [y for y in [x.left] + list(x.comparators) if y is not side]
+                    if not all(isinstance(y, ast.Constant) and y.value is None for y in other):
+                        return True       # the whole header (tag AND the octet counts of its encoding) is compared
+    return False
+
+
+def header_form_rejections(model: Model, run: Run) -> None:
+    """V8: `ASN1Header.tag_length` is the number of identifier + length octets the peer chose to use.  A `raise` that is reached
+    under a test of it - directly, or by comparing a whole header value with == / != / in - refuses some valid length form."""
+    from ..srcmodel import dominating_literals
+    from .c05 import may_raise
+    rz = may_raise(model).r
+    fx = ast.parse(V8_FIXTURE).body[0]
+    fx_hits = sum(1 for r in ast.walk(fx) if isinstance(r, ast.Raise) and any(_form_dependent(l, {"h"}) for l in dominating_literals(fx, r)))
+    if fx_hits != 2:
+        raise AnalysisError("V8 self-check failed on its fixture")
+    n = 0
+    for fq, fi in list(model.functions.items()):
+        if isinstance(fi.node, ast.Lambda) or fi.module == ASN1:
+            continue
+        raises = [r for r in walk_no_nested(fi.node) if isinstance(r, ast.Raise)]
+        if not raises:
+            continue
+        env = rz.env(fi)
+        hnames = {k for k, t in env.items() if rz.strip_opt(t) == ("inst", f"{ASN1}.ASN1Header")}
+        if not hnames and "tag_length" not in model.modules[fi.module].source:
+            continue
+        for r in raises:
+            lits = dominating_literals(fi.node, r)
+            bad = [l for l in lits if _form_dependent(l, hnames)]
+            n += 1
+            run.ob("V8-no-rejection-by-header-form", not bad, {"function": fq.split("sansldap.")[-1], "line": r.lineno})
+            if bad:
+                run.fail(Finding("V8-no-rejection-by-header-form", fq, bad[0][:80],
+                                 f"{fq.split('sansldap.')[-1]} raises when `{bad[0][:70]}`: the test depends on how many identifier/length octets the peer used "
+                                 "(ASN1Header.tag_length), so the same element in another valid length form is refused", model.loc(fi.module, r)))
+    run.coverage["raises_in_header_holding_functions"] = n
